@@ -47,15 +47,30 @@ def thin_event(darsia, rng, tid, m1, m2, big=False):
     zface = bool(np.any(pre == 0))
     reg = rng.choice(["default", "1e-10"]) if method == "newton" else "default"
     e = {"tid": tid, "op": "thin", "n": n, "shape": list(shape), "h": h, "a": a, "m1": list(m1), "m2": list(m2), "mode": mode, "method": method, "mob": mob, "raised": 0, "d2": -1,
-         "reg": reg, "cls": "vanishing-face-flux:default-regularization" if (method == "newton" and zface and reg == "default") else "regular"}
+         "gauss6": -1, "reg": reg, "cls": "vanishing-face-flux:default-regularization" if (method == "newton" and zface and reg == "default") else "regular"}
     try:
         img1, img2 = make_images(darsia, shape, [float(x) for x in hs], np.array(m1, dtype=float).reshape(shape), np.array(m2, dtype=float).reshape(shape))
+        idt = rng.choice(["float64", "float64", "uint8", "uint16", "int64", "float32"])     # integer masses in the pixel types images come in
+        e["imgdtype"] = idt
+        if idt != "float64":
+            img1.img = img1.img.astype(idt)
+            img2.img = img2.img.astype(idt)
         extra = {"num_iter": 8}
         if reg != "default":
             extra["regularization"] = float(reg)
         d = float(solve(darsia, img1, img2, method, mode, mob, extra=extra))
         e["d2"] = int(round(2 * d)) if np.isfinite(d) and abs(d) < 1e8 and abs(2 * d - round(2 * d)) <= 1e-5 * (1 + abs(2 * d)) else -1
         e["d_6"] = d6(d) if abs(d) < 2000 else -1
+        if mode == "rt":
+            # the cost of the unique flux under the Gauss rule, by the harness' own quadrature (the integrand has a kink where
+            # the flux changes sign inside a cell, so this value is not an integer formula of the specification)
+            grid = darsia.generate_grid(img1)
+            D = incidence(grid)
+            rhs = float(np.prod(hs)) * (np.array(m2, dtype=float) - np.array(m1, dtype=float)).reshape(shape).ravel("F")
+            u = np.linalg.lstsq(D.toarray(), rhs, rcond=None)[0]
+            nq = int(round(len(darsia.quadrature.gauss_reference_cell(dim, "max")[1]) ** (1.0 / dim)))
+            g = transport_cost(grid, u, L1["rt"], np.ones(n), nq)[0]
+            e["gauss6"] = d6(g) if abs(g) < 2000 else -1
     except Exception as ex:  # noqa
         e["raised"] = 1
         e["error"] = repr(ex)[:160]
